@@ -227,7 +227,7 @@ type runOut struct {
 func (e *shellEnv) runScript(cfg shellCfg, script []byte) runOut {
 	e.nscript++
 	e.runs++
-	path := filepath.Join(e.base, fmt.Sprintf("s%d.sh", e.nscript%4))
+	path := filepath.Join(e.base, "script.sh")
 	if err := os.WriteFile(path, script, 0o644); err != nil {
 		return runOut{err: err}
 	}
